@@ -82,6 +82,9 @@ func reflectKind(t types.Type) uint64 {
 func (m *Machine) nativeMethod(th *Thread, recv *NativeV, name string, args []Value) (Value, bool) {
 	switch r := recv.V.(type) {
 	case *rtypeV:
+		if v, ok := m.rtypeMethod(r, name, args); ok {
+			return v, true
+		}
 		switch name {
 		case "Elem":
 			switch u := r.t.Underlying().(type) {
